@@ -309,7 +309,7 @@ type stub struct{ s *Session }
 
 func (st stub) OpenTunnel(ctx context.Context, opts ...grpc.CallOption) (grpc.BidiStreamingClient[tunnelpb.ClientToServer, tunnelpb.ServerToClient], error) {
 	s := st.s
-	car := sim.New(ctx, sim.Options{T: 1, Cap: s.Cfg.Cap, Auto: s.Cfg.Auto, Log: s.Log, Yield: s.carYield})
+	car := sim.New(ctx, sim.Options{T: 1, Cap: s.Cfg.Cap, Auto: s.Cfg.Auto, Log: s.Log, Yield: s.carYield, ServerCtx: withInterceptorValue})
 	s.setCarrier(car)
 	if s.Cfg.RawSrv == "" {
 		se := &sim.ServerEnd[tunnelpb.ClientToServer, tunnelpb.ServerToClient, *tunnelpb.ClientToServer, *tunnelpb.ServerToClient]{C: car, Desc: wire.Desc}
@@ -326,7 +326,7 @@ func (st stub) OpenTunnel(ctx context.Context, opts ...grpc.CallOption) (grpc.Bi
 
 func (st stub) OpenReverseTunnel(ctx context.Context, opts ...grpc.CallOption) (grpc.BidiStreamingClient[tunnelpb.ServerToClient, tunnelpb.ClientToServer], error) {
 	s := st.s
-	car := sim.New(ctx, sim.Options{T: 1, Reverse: true, Cap: s.Cfg.Cap, Auto: s.Cfg.Auto, Log: s.Log, Yield: s.carYield})
+	car := sim.New(ctx, sim.Options{T: 1, Reverse: true, Cap: s.Cfg.Cap, Auto: s.Cfg.Auto, Log: s.Log, Yield: s.carYield, ServerCtx: withInterceptorValue})
 	s.setCarrier(car)
 	if s.Cfg.RawCli == "" {
 		se := &sim.ServerEnd[tunnelpb.ServerToClient, tunnelpb.ClientToServer, *tunnelpb.ServerToClient, *tunnelpb.ClientToServer]{C: car, Desc: wire.Desc}
@@ -395,6 +395,7 @@ func (s *Session) open() {
 	if cfg.TunnelMD != nil {
 		ctx = metadata.NewOutgoingContext(ctx, toMD(cfg.TunnelMD))
 	}
+	ctx = context.WithValue(ctx, ctxValKey{}, "iv-client")
 	s.tunCtx, s.tunStop = context.WithCancel(ctx)
 	hopts := grpctunnel.TunnelServiceHandlerOptions{
 		OnReverseTunnelOpen: func(ch grpctunnel.TunnelChannel) {
@@ -463,7 +464,7 @@ func (s *Session) openRawNetClient() {
 		ctx = metadata.AppendToOutgoingContext(ctx, "grpctunnel-negotiate", "on")
 	}
 	if s.Cfg.Dir == "fwd" {
-		car := sim.New(ctx, sim.Options{T: 1, Cap: s.Cfg.Cap, Auto: s.Cfg.Auto, Log: s.Log, Yield: s.carYield})
+		car := sim.New(ctx, sim.Options{T: 1, Cap: s.Cfg.Cap, Auto: s.Cfg.Auto, Log: s.Log, Yield: s.carYield, ServerCtx: withInterceptorValue})
 		s.setCarrier(car)
 		se := &sim.ServerEnd[tunnelpb.ClientToServer, tunnelpb.ServerToClient, *tunnelpb.ClientToServer, *tunnelpb.ServerToClient]{C: car, Desc: wire.Desc}
 		go func() {
@@ -473,7 +474,7 @@ func (s *Session) openRawNetClient() {
 		}()
 		return
 	}
-	car := sim.New(ctx, sim.Options{T: 1, Reverse: true, Cap: s.Cfg.Cap, Auto: s.Cfg.Auto, Log: s.Log, Yield: s.carYield})
+	car := sim.New(ctx, sim.Options{T: 1, Reverse: true, Cap: s.Cfg.Cap, Auto: s.Cfg.Auto, Log: s.Log, Yield: s.carYield, ServerCtx: withInterceptorValue})
 	s.setCarrier(car)
 	se := &sim.ServerEnd[tunnelpb.ServerToClient, tunnelpb.ClientToServer, *tunnelpb.ServerToClient, *tunnelpb.ClientToServer]{C: car, Desc: wire.Desc}
 	go func() {
@@ -481,6 +482,28 @@ func (s *Session) openRawNetClient() {
 		car.HandlerReturned(err)
 		s.emit("tun", errFields(tr.E{"what": "revhandlerret"}, err))
 	}()
+}
+
+type ctxValKey struct{}
+
+// withInterceptorValue plays a server interceptor storing a value in the context.
+func withInterceptorValue(ctx context.Context) context.Context {
+	return context.WithValue(ctx, ctxValKey{}, "iv-server")
+}
+
+// mutate changes metadata returned by an accessor in every way an application
+// could: a new key, and an element of a value slice overwritten in place.
+func mutate(md metadata.MD) {
+	if md == nil {
+		return
+	}
+	for k, vs := range md {
+		if len(vs) > 0 {
+			vs[0] = "MUTATED"
+			md[k] = append(vs, "MUTATED-TOO")
+		}
+	}
+	md["x-mutated"] = []string{"1"}
 }
 
 // ---- quiescent-point observation ----------------------------------------------------
